@@ -177,3 +177,11 @@ Example warm_inhabited :
   map result_of (snd (run_schedule wchain wmeth s [start (OCall 0); start (OCall 1); start (OCall 0)] [2; 0; 1; 0; 2; 2; 1; 0; 0; 1; 2; 2; 0; 1; 2; 0]))
     = [Some ([0; 1], RRet); Some ([2], RRet); Some ([0; 1], RRet)].
 Proof. vm_compute. repeat split; reflexivity. Qed.
+
+(* the proved domain is exactly the complement of the two windows *)
+Lemma safe_point_complement : forall l, safe_point l = negb (in_fill_window l) && negb (in_write_window l).
+Proof.
+  intros [p tr]. unfold safe_point, in_fill_window, in_write_window, in_compile, before_swap; cbn.
+  destruct p as [o| |c a|k|t k cl|t k cl st ws|t k cl|h ob k|h ob k|t h ob k|t h ob k|r]; cbn; auto;
+    try (destruct c; reflexivity); try (destruct st, ws; reflexivity).
+Qed.
